@@ -19,6 +19,7 @@ RULE = ("stream 'shape': random stack shapes (depth 1..6, parallel groups of 1..
         "stream 'exhaustive' (thorough): all shapes up to depth 4 with groups <= 3 x every emitter position x every consumer position. "
         "stream 'helpers': getCoreLayers/getProtocolLayers/getDefaultLayers/getDefaultStack for all 16/32 flag combinations. "
         "distinct = distinct (shape, behaviours, op).")
+RULE += (" The stack's loop runs three idle passes before the harness leaves it.")
 ASSUMPTIONS = ["layers are seen by the framework through send/receive/onEvent/toLower/toUpper/emitEvent/broadcastEvent only",
                "one thread drives the stack in this check (C11/C12 cover concurrency)"]
 
@@ -34,11 +35,20 @@ class _FakeTime(object):
         import time
         return getattr(time, n)
 
+    idle = 0
+
     @staticmethod
     def sleep(_s):
+        # the loop is left after three passes in a row that found nothing queued (an application's loop goes on idling for ever: whatever an
+        # idle pass does shows in the log)
         q = YowStack._YowStack__detachedQueue
         if q.empty():
-            raise _Stop()
+            _FakeTime.idle += 1
+            if _FakeTime.idle >= 3:
+                _FakeTime.idle = 0
+                raise _Stop()
+        else:
+            _FakeTime.idle = 0
 
 
 def fan(kind):
